@@ -38,7 +38,15 @@ CACHES (all three may be ON): the T1 result cache across turns (`State.t1c`, key
 orchestrator's CacheManager around T2 (`State.orch`, key (version, input text), `cache_bust_mode` on-apply), and
 the process-global T2 stage cache (transparent here, see `t2Stage`).  No TTL expiry / eviction inside a history.
 
-LEFT OUT (the harness keeps them off and says so): GEL (graph.enabled), reflection, scheduler, perf/metrics gate,
+GEL (graph.enabled): `observe_retrieval` on ALL hits T2 returned (after T2, skipped in a dry run), the decay tick
+and the merge/split/promotion block inside `if t4_enabled:` after T4 and BEFORE Apply (`Clem.Gel`, C18's model;
+`merge_candidates` / `split_candidates` are oracles as in C18), the store is `State.gel`.
+
+REFLECTION TAIL (t3.allow_reflection + `state["_planner_reflection_flag"]`): C19's `Clem.Refl.tail` (repaired tail,
+fresh ctx per turn, rule-based backend, no faults, logical clock) on the turn's utterance and the texts of the T2
+hits; the written episodes only count (`State.memN`) — the harness keeps them invisible to retrieval.
+
+LEFT OUT (the harness keeps them off and says so): scheduler, perf/metrics gate,
 T2 quality + hybrid layers (the T2 model has them; they are switched off here), LLM backend, node `attrs.tags`,
 the boot snapshot loader (`_boot_loaded` pre-set), wall-clock `now`, the `t3.enabled` / env T3 gate (modelled as
 `Cfg.t3Enabled`, only exercised through the dry-run path), a changing world (graphs / memory / config are fixed
@@ -49,6 +57,9 @@ import Clem.Model.T2
 import Clem.Model.T3
 import Clem.Model.T4
 import Clem.Model.Apply
+import Clem.Model.Gel
+import Clem.Model.Sched
+import Clem.Model.Refl
 
 namespace Clem.Compose
 
@@ -81,6 +92,16 @@ structure World (α : Type) where
   eps : List (Clem.T2.Ep α)
   last : List (Str × Option Int)
   agent : Str
+  /-- `state["_planner_reflection_flag"]` (the stock planner's `Plan.reflection` is always false) -/
+  reflFlag : Bool := false
+
+/-- the `hybrid` block of the t2 metrics (`apply_quality` keeps the keys `rerank_with_gel` reported): absent,
+`{"k_considered"}` (slice of one), or the full block with `k_reordered` and the effective `anchor_top_m` -/
+inductive HInfo where
+  | absent
+  | kc (k : Int)
+  | full (k : Int) (reordered : Nat) (anchorM : Int)
+deriving DecidableEq, Repr, Inhabited
 
 structure Cfg (α : Type) where
   t1 : Clem.T1.Cfg α
@@ -121,6 +142,24 @@ structure Cfg (α : Type) where
   orchCacheOn : Bool
   /-- `t4.cache_bust_mode == "on-apply"` -/
   bust : Bool
+  /-- resolved `graph.*` settings (GEL; `gel.enabled` = `graph.enabled`) and Python's `**` for the decay factor -/
+  gel : Clem.Gel.Cfg α
+  pw : α → α → α
+  /-- `graph.merge/split/promotion.enabled` and their `cap_per_turn` -/
+  doMerge : Bool
+  doSplit : Bool
+  doPromo : Bool
+  capMerge : Int
+  capSplit : Int
+  capPromo : Int
+  /-- `t2.hybrid.*` (the `edges` field is ignored: the reranker reads the GEL store of the state) and
+  `t2.quality.*` (the `lex` field is ignored: BM25 scores are an oracle per query) -/
+  hyb : Clem.T2.HCfg α
+  qual : Clem.T2.QCfg α
+  /-- `t3.allow_reflection`, `t3.reflection.*`, `scheduler.budgets.ops_reflection / time_ms_reflection` (C19's `Cfg`) -/
+  refl : Clem.Refl.Cfg
+  /-- `scheduler.enabled`: `none` = off; `some b` = the slice budgets `_derive_budgets` produces (C17's `Budgets`) -/
+  sched : Option Clem.Sched.Budgets
 
 /-- Oracle answers for one query text: cosine of every episode (by position in `World.eps`) and the
 centroid cosine per cluster id. -/
@@ -128,11 +167,16 @@ structure QOracle (α : Type) where
   q : Str
   cos : List α
   cscore : List (Str × α)
+  /-- BM25 score per candidate id for this query (`quality_ops._bm25_scores`, oracle as in C11) -/
+  lex : List (Str × α) := []
 
 structure Oracles (α : Type) where
   queries : List (QOracle α)
   /-- `ctx.now` parsed to microseconds (the parse is an oracle of C11 as well) -/
   nowUs : Int
+  /-- what `gel.merge_candidates` / `gel.split_candidates` answered this turn (oracles, as in C18) -/
+  merges : List (Clem.Gel.MergeRec α)
+  splits : List Clem.Gel.SplitRec
 
 structure TurnIn (α : Type) where
   text : Str
@@ -144,6 +188,8 @@ structure TurnIn (α : Type) where
   hook : Bool
   hookOps : List Clem.T3.Op
   hookDeltas : List (Clem.T4.Delta α)
+  /-- `int(getattr(ctx, "slice_idx", 0) or 0)` (the rig builds a fresh ctx per turn: 0) -/
+  sliceIdxPrev : Int := 0
 
 /-- What a history carries from turn to turn: the store's weight map, the version counter, and (caches ON) the
 process-global T1 result cache — keyed by (graph, sorted seed ids); the rest of the real key (etag, config) is
@@ -154,6 +200,13 @@ structure State (α : Type) where
   ver : Clem.Apply.Ver
   t1c : List ((Nat × List Nat) × Clem.T1.GRes α)
   orch : List ((Clem.Apply.Ver × Str) × Clem.T2.Out α)
+  /-- the `hybrid` block of the metrics of each cached T2 result (same keys, same order as `orch`) -/
+  orchH : List ((Clem.Apply.Ver × Str) × HInfo) := []
+  /-- `state.graph`, the GEL store (`none`: the key does not exist yet) -/
+  gel : Clem.Gel.State α
+  /-- number of reflection episodes `write_reflection_entries` has added to the memory index so far.  Nothing in
+  the model reads it: the harness keeps them invisible to retrieval (owner = the agent, `owner_scope = world`) -/
+  memN : Nat := 0
 
 /-! ## glue 1: world → T1 graphs (string ids ranked under code-point order) -/
 
@@ -249,26 +302,46 @@ def t2Cfg {α : Type} (w : World α) (c : Cfg α) (o : Oracles α) (qo : QOracle
   { scope := c.scope, agent := some w.agent, k := c.k, θ := c.θ, days := c.days, topM := c.topM,
     nowUs := o.nowUs, quarters := [], cscore := qo.cscore, alpha := c.alpha, beta := c.beta, gamma := c.gamma }
 
-def hOff {α : Type} [Clem.T2.Num α] : Clem.T2.HCfg α :=
-  { enabled := false, useGraph := false, anchorTopM := 0, hops := 0, thresh := Clem.T2.Num.zero,
-    lam := Clem.T2.Num.zero, damping := Clem.T2.Num.zero, invdeg := false, maxBonus := Clem.T2.Num.zero,
-    kMax := 0, edges := [], fail := false }
-
-def qOff {α : Type} [Clem.T2.Num α] : Clem.T2.QCfg α :=
-  { enabled := false, modeInterp := false, alphaSem := Clem.T2.Num.zero, lex := [], mmrEnabled := false,
-    mmrLam := Clem.T2.Num.zero, mmrK := none, failFuse := false, failMmr1 := false, failMmr2 := false }
-
 def gnodes {α : Type} (w : World α) : List (List Clem.T2.GNode) :=
   w.graphs.map (fun g => g.nodes.map (fun n => ⟨n.id, n.label⟩))
 
-/-- one `t2_semantic(ctx, state, text, t1)` call (quality / hybrid layers off, no slice cap);
-`none` = the oracle has no entry for the query text the glue computed. -/
-def t2Call {α : Type} [Clem.T2.Num α] (w : World α) (c : Cfg α) (o : Oracles α) (q : Str) :
+/-- `ctx.slice_budgets["t2_k"]` (scheduler on and the budget configured) -/
+def t2K {α : Type} (c : Cfg α) : Option Int :=
+  match c.sched with
+  | some b => b.t2K
+  | none => none
+
+/-- the edges `rerank_with_gel` reads: `state.graph["edges"]`, i.e. the GEL store of the state -/
+def gelEdges {α : Type} (g : Clem.Gel.State α) : List (Clem.T2.GEdge α) :=
+  (Clem.Gel.ensure g).edges.map (fun e => ⟨e.src, e.dst, e.w⟩)
+
+def hybOf {α : Type} (c : Cfg α) (g : Clem.Gel.State α) : Clem.T2.HCfg α := { c.hyb with edges := gelEdges g, fail := false }
+def qualOf {α : Type} (c : Cfg α) (qo : QOracle α) : Clem.T2.QCfg α :=
+  { c.qual with lex := qo.lex, failFuse := false, failMmr1 := false, failMmr2 := false }
+
+/-- the `hybrid` metrics block for the items handed to `rerank_with_gel` (exit paths as in `Clem.T2.hybrid`) -/
+def hybridInfo {α : Type} [Clem.T2.Num α] (h : Clem.T2.HCfg α) (items : List (Clem.T2.Ep α)) : HInfo :=
+  if !h.enabled then .absent
+  else if !h.useGraph || h.edges.isEmpty || items.isEmpty then .absent
+  else
+    let kc : Int := min (items.length : Int) h.kMax
+    if kc ≤ 1 then .kc kc
+    else
+      let work := items.take kc.toNat
+      let sc := Clem.T2.hybridScores h work kc
+      let m : Int := max 1 (min h.anchorTopM kc)
+      if !(sc.any (·.2)) then .full kc 0 m
+      else .full kc ((work.zip (Clem.T2.hybridReorder work (sc.map (·.1)))).filter (fun p => p.1.id != p.2.id)).length m
+
+/-- one `t2_semantic(ctx, state, text, t1)` call (rerank layers as configured, GEL edges `g` of the state at the
+time of the call); `none` = the oracle has no entry for the query text the glue computed. -/
+def t2Call {α : Type} [Clem.T2.Num α] (w : World α) (c : Cfg α) (o : Oracles α) (g : Clem.Gel.State α) (q : Str) :
     Option (Clem.T2.Out α) :=
   match lookupQ o q with
   | none => none
   | some qo =>
-    some (Clem.T2.t2 (t2Cfg w c o qo) c.tiers (withCos w.eps qo.cos) hOff qOff none c.residualCap (gnodes w))
+    some (Clem.T2.t2 (t2Cfg w c o qo) c.tiers (withCos w.eps qo.cos) (hybOf c g) (qualOf c qo) (t2K c) c.residualCap
+      (gnodes w))
 
 /-- numpy's pairwise summation as `np.mean` / `np.add.reduce` run it on a contiguous float64 vector
 (n < 8: left fold from `0.0`; 8 ≤ n: eight running lanes, combined as a balanced tree, then the rest). -/
@@ -313,8 +386,20 @@ def touchedNodes {α : Type} [Clem.T3.PyOrd α] (ids : List Str) : List (Clem.T3
   (Clem.Py.isort Clem.Py.lexLe ((Clem.Py.isort Clem.Py.lexLe (ids.filter (fun i => !i.isEmpty))).take 32)).map
     (fun i => ⟨i, some i, some Clem.T3.PyOrd.zero⟩)
 
+/-- `bundle["slice_caps"]["t3_ops"]` -/
+def sliceV {α : Type} (c : Cfg α) : Clem.T3.SliceV :=
+  match c.sched with
+  | some b => (match b.t3Ops with | some v => .int v | none => .missing)
+  | none => .missing
+
+/-- T1's configuration as the stage sees it: `ctx.slice_budgets` t1_iters / t1_pops when the scheduler is on -/
+def t1Cfg {α : Type} (c : Cfg α) : Clem.T1.Cfg α :=
+  match c.sched with
+  | some b => { c.t1 with sliceIters := b.t1Iters, slicePops := b.t1Pops }
+  | none => c.t1
+
 def mkBundle {α : Type} [Clem.T3.PyOrd α] (c : Cfg α) (ids : List Str) (sMax : α) : Clem.T3.Bundle α :=
-  { baseOps := c.maxOps, slice := .missing, tokens := c.tokens, tauHigh := c.tauHigh, tauLow := c.tauLow,
+  { baseOps := c.maxOps, slice := sliceV c, tokens := c.tokens, tauHigh := c.tauHigh, tauLow := c.tauLow,
     epsEdit := c.epsEdit, sMax := sMax, labelsT1 := [], nodes := touchedNodes ids, owner := c.ownerRaw,
     kRetrieval := c.k }
 
@@ -345,10 +430,11 @@ structure RagSt (α : Type) where
   retrievedIds : List Str
 
 def ragStep {α : Type} [Clem.T2.Num α] [Clem.T3.PyOrd α] (w : World α) (c : Cfg α) (o : Oracles α)
-    (t : TurnIn α) (labels : List Str) (b : Clem.T3.Bundle α) (p : PlanSt α) : RagSt α :=
+    (t : TurnIn α) (labels : List Str) (b : Clem.T3.Bundle α) (p : PlanSt α)
+    (g : Clem.Gel.State α := none) : RagSt α :=
   if p.ops.any Clem.T3.Op.isRetrieve && decide (1 ≤ c.maxRagLoops) then
     let q2 := queryText (ragQuery t) labels
-    let r2 := t2Call w c o q2
+    let r2 := t2Call w c o g q2
     let r := Clem.T3.ragOnce b p.ops (fun _ => match r2 with | some x => hitsOf x | none => []) false
     -- `rag_once` rebuilds the Plan without `deltas` when it refines
     ⟨⟨r.ops, if r.ragUsed then [] else p.deltas⟩, r.ragUsed, r.calls.length, r2.isNone && r.ragUsed, r.retrievedIds⟩
@@ -476,6 +562,17 @@ structure TurnOut (α : Type) where
   apply : Option Clem.Apply.Out
   storeCalls : List (List (Clem.T4.Delta α))
   line : Str
+  /-- GEL: was observe / tick / the maintenance block run, their metrics, and the candidate counts -/
+  gelObs : Option Clem.Gel.ObsOut
+  gelTick : Option Clem.Gel.TickOut
+  gelMaint : Option (Nat × Nat × Nat × Nat × Nat)
+  /-- the `hybrid` block of the t2 record -/
+  hinfo : HInfo
+  /-- the reflection tail: reached / `reflect` called / entries handed to the index / telemetry record -/
+  refl : Clem.Refl.TurnOut
+  /-- scheduler: the boundary the turn returned at and why (`none`: ran to the end); did the T2 stage run -/
+  yielded : Option (Clem.Sched.Stage × Clem.Sched.YReason)
+  t2Ran : Bool
   state : State α
 
 def emptyT2 {α : Type} (c : Cfg α) : Clem.T2.Out α := ⟨[], [], c.tiers, [], [], false⟩
@@ -485,11 +582,11 @@ def finalLine (utter text : Str) : Str :=
   if !utter.isEmpty then utter else if !(Clem.T3.strip text).isEmpty then Clem.T3.strip text else [8230]
 
 section stages
-variable {α : Type} [Clem.T1.Num α] [Clem.T2.Num α] [Clem.T3.PyOrd α] [Clem.Py.Num α]
+variable {α : Type} [Clem.T1.Num α] [Clem.T2.Num α] [Clem.T3.PyOrd α] [Clem.Py.Num α] [Clem.Py.NumGel α]
 variable (w : World α) (c : Cfg α) (s : State α) (t : TurnIn α) (o : Oracles α)
 
 /-- T1 on the turn's text (with the process cache of the state) -/
-def t1Of : Clem.T1.Tot α := t1Run c.t1 (t1Graphs w) t.text s.t1c
+def t1Of : Clem.T1.Tot α := t1Run (t1Cfg c) (t1Graphs w) t.text s.t1c
 def idsOfTurn : List Str := deltaIds w (t1Of w c s t)
 def labelsOf : List Str := changedLabels w.graphs (idsOfTurn w c s t)
 def qOf : Str := queryText t.text (labelsOf w c s t)
@@ -502,19 +599,27 @@ structure T2St (α : Type) where
   /-- `cm.stats["size"]` when the t2 record is written -/
   size : Nat
   orch : List ((Clem.Apply.Ver × Str) × Clem.T2.Out α)
+  /-- the `hybrid` block of the result's metrics (cached with it) -/
+  hinfo : HInfo := .absent
+  orchH : List ((Clem.Apply.Ver × Str) × HInfo) := []
 
 /-- the T2 section of `run_turn`: `key = (version, str(input_text))`, `cm.get` / `t2_semantic` + `cm.set`.
 (The process-global T2 STAGE cache, `t2.cache.enabled`, is keyed by the query text and everything else the stage
 reads; in a history of the model's world a hit returns what the stage would compute again, so it has no state
-here — it only changes the constants `cache_enabled / cache_used / cache_misses` of the t2 record.) -/
+here — it only changes the constants `cache_enabled / cache_used / cache_misses` of the t2 record.  With the hybrid
+reranker on, the stage also reads the GEL store, which that key ignores (C05's finding `t2:state`): the harness
+keeps the stage cache off in hybrid worlds.) -/
 def t2Stage : T2St α :=
-  let fresh := t2Call w c o (qOf w c s t)
+  let fresh := t2Call w c o s.gel (qOf w c s t)
+  let out := fresh.getD (emptyT2 c)
+  let hi := if fresh.isSome then hybridInfo (hybOf c s.gel) (out.pre.map (·.1)) else .absent
   if c.orchCacheOn then
     match s.orch.find? (fun e => e.1 == (s.ver, t.text)) with
-    | some e => ⟨e.2, true, false, s.orch.length, s.orch⟩
-    | none => ⟨fresh.getD (emptyT2 c), false, fresh.isNone, s.orch.length + 1,
-               s.orch ++ [((s.ver, t.text), fresh.getD (emptyT2 c))]⟩
-  else ⟨fresh.getD (emptyT2 c), false, fresh.isNone, 0, s.orch⟩
+    | some e => ⟨e.2, true, false, s.orch.length, s.orch,
+                 ((s.orchH.find? (fun e => e.1 == (s.ver, t.text))).map (·.2)).getD .absent, s.orchH⟩
+    | none => ⟨out, false, fresh.isNone, s.orch.length + 1, s.orch ++ [((s.ver, t.text), out)], hi,
+               s.orchH ++ [((s.ver, t.text), hi)]⟩
+  else ⟨out, false, fresh.isNone, 0, s.orch, hi, s.orchH⟩
 
 /-- the T2 result the rest of the turn sees -/
 def t2Of : Clem.T2.Out α := (t2Stage w c s t o).out
@@ -522,45 +627,169 @@ def bundleOf : Clem.T3.Bundle α := mkBundle c (idsOfTurn w c s t) (simMax (t2Of
 /-- T3 is gated and skipped in the dry-run compute phase -/
 def t3On : Bool := c.t3Enabled && !t.dryRun
 def plan0Of : PlanSt α := if t3On c t then planOf t (bundleOf w c s t o) else ⟨[], []⟩
+
+/-! ### scheduler (scheduler.enabled): the yield decision at the stage boundaries
+
+`_should_yield` is consulted after T1, T2, the T3 plan (inside the T3 block), T4 and Apply (the last two only when
+T4 runs and the turn is not a dry run — the dry run returns before the T4 boundary) with that boundary's counters.
+LOGICAL clock: the measured elapsed time is taken as 0 ms (the harness configures huge `wall_ms` / `quantum_ms`;
+wall-clock dependence of the decision is C01's known finding `wallclock:scheduler-yield`). -/
+
+def consT1 : Clem.Sched.Consumed :=
+  ⟨some 0, some (t1Of w c s t).iters, some ((t1Of w c s t).pops : Int), none, none⟩
+def consT2 : Clem.Sched.Consumed := ⟨some 0, none, none, some ((t2Of w c s t o).used.length : Int), none⟩
+def consT3 : Clem.Sched.Consumed := ⟨some 0, none, none, none, some ((plan0Of w c s t o).ops.length : Int)⟩
+def consMs : Clem.Sched.Consumed := ⟨some 0, none, none, none, none⟩
+
+def boundaries : List (Clem.Sched.Stage × Clem.Sched.Consumed) :=
+  [(.T1, consT1 w c s t), (.T2, consT2 w c s t o)] ++
+  (if t3On c t then [(.T3, consT3 w c s t o)] else []) ++
+  (if c.t4Enabled && !t.dryRun then [(.T4, consMs), (.Apply, consMs)] else [])
+
+/-- the first boundary whose decision fires, with the reason (`none`: scheduler off, or no boundary fires) -/
+def yieldOf : Option (Clem.Sched.Stage × Clem.Sched.YReason) :=
+  match c.sched with
+  | none => none
+  | some b => Clem.Sched.firstYield b (boundaries w c s t o)
+
+def stageRank : Clem.Sched.Stage → Nat
+  | .T1 => 0 | .T2 => 1 | .T3 => 2 | .T4 => 3 | .Apply => 4
+
+/-- rank of the boundary the turn returns at (5 = it runs to the end) -/
+def yr : Nat := match yieldOf w c s t o with | none => 5 | some p => stageRank p.1
+
+/-- the part of the turn after boundary number `k` is executed -/
+def reach (k : Nat) : Bool := decide (k < yr w c s t o)
+
+/-! ### GEL (graph.enabled): observe on ALL hits T2 returned, tick + maintenance before Apply -/
+
+/-- `items = t2.retrieved` through `_as_id_score`: `(str(id), float(score))` of every hit, in T2's order -/
+def gelItems : List (Str × α) := (t2Of w c s t o).retrieved.map (fun e => (e.id, e.cos))
+
+def gelObsOn : Bool := c.gel.enabled && !t.dryRun && reach w c s t o 1
+
+/-- `if graph_enabled and not _dry_run: gel_observe(ctx, state, items, turn=int(turn_id), agent=…)` (after the T2
+boundary) -/
+def gelObsOps : List (Clem.Gel.Op α) :=
+  if gelObsOn w c s t o then [.observe (gelItems w c s t o) (some t.turnId)] else []
+
+/-- the decay tick sits inside `if t4_enabled:` after T4, the dry-run return and the T4 boundary, BEFORE Apply -/
+def gelTickOn : Bool := c.gel.enabled && c.t4Enabled && !t.dryRun && reach w c s t o 3
+
+def gelMaintOn : Bool := gelTickOn w c s t o && (c.doMerge || c.doSplit || c.doPromo)
+
+def gelMerges : List (Clem.Gel.MergeRec α) := if c.doMerge then o.merges else []
+def gelSplits : List Clem.Gel.SplitRec := if c.doSplit then o.splits else []
+/-- `promos = gel_promote_clusters(ctx, state, merges if do_merge else [])` -/
+def gelPromos : List (Clem.Gel.Promo α) :=
+  if c.doPromo then Clem.Gel.promoteClusters c.gel ((gelMerges c o).map (·.nodes)) else []
+
+/-- `for m in merges[:cap_m]: apply_merge`, `for s in splits[:cap_s]: apply_split`, `for p in promos[:cap_p]: apply_promotion` -/
+def gelMaintOps : List (Clem.Gel.Op α) :=
+  if gelMaintOn w c s t o then
+    (Clem.Gel.pySlice c.capMerge (gelMerges c o)).map Clem.Gel.Op.merge ++
+    (Clem.Gel.pySlice c.capSplit (gelSplits c o)).map Clem.Gel.Op.split ++
+    (Clem.Gel.pySlice c.capPromo (gelPromos c o)).map Clem.Gel.Op.promote
+  else []
+
+def gelTickOps : List (Clem.Gel.Op α) := if gelTickOn w c s t o then [.tick 1 (some t.turnId)] else []
+
+/-- everything the turn does to the GEL store, in order -/
+def gelOps : List (Clem.Gel.Op α) := gelObsOps w c s t o ++ gelTickOps w c s t o ++ gelMaintOps w c s t o
+
+def gelAfterObs : Clem.Gel.State α := Clem.Gel.run c.gel c.pw s.gel (gelObsOps w c s t o)
+def gelNext : Clem.Gel.State α := Clem.Gel.run c.gel c.pw s.gel (gelOps w c s t o)
+
+/-- metrics of the observe / tick calls (for the gel log stream) -/
+def gelObsOut : Clem.Gel.ObsOut := (Clem.Gel.observe c.gel s.gel (gelItems w c s t o) (some t.turnId)).2
+def gelTickOut : Clem.Gel.TickOut := (Clem.Gel.tick c.gel c.pw (gelAfterObs w c s t o) 1 (some t.turnId)).2
+
 def ragOf : RagSt α :=
-  if t3On c t then ragStep w c o t (labelsOf w c s t) (bundleOf w c s t o) (plan0Of w c s t o)
+  if t3On c t then ragStep w c o t (labelsOf w c s t) (bundleOf w c s t o) (plan0Of w c s t o) (gelAfterObs w c s t o)
   else ⟨plan0Of w c s t o, false, 0, false, []⟩
 /-- the plan that reaches speak and T4 -/
 def planFinal : PlanSt α := (ragOf w c s t o).plan
 def t4InOf : Clem.T4.Input α := t4Input w c t (planFinal w c s t o)
 def t4Of : Clem.T4.Result α := Clem.T4.t4 c.sqrt c.thr (t4InOf w c s t o)
-/-- T4's approved list is handed to Apply (kill switch off, not a dry run) -/
+/-- the static gates of T4 → Apply: kill switch off, not a dry run -/
 def committed : Bool := c.t4Enabled && !t.dryRun
+/-- T4's approved list is handed to Apply: the gates are open and the turn did not yield at or before the T4 boundary -/
+def commits : Bool := committed c t && reach w c s t o 3
 def applyOf : Clem.Apply.Out :=
   Clem.Apply.apply (applyIn c s t (t4Of w c s t o).approved (t2Stage w c s t o).size)
 /-- the T1 process cache after the turn -/
 def t1cNext : List ((Nat × List Nat) × Clem.T1.GRes α) :=
   if c.t1.cacheOn then s.t1c ++ t1Puts (t1Graphs w) t.text (t1Of w c s t) else s.t1c
-/-- the orchestrator cache after the turn: emptied by a committed apply in `on-apply` mode -/
+/-- the orchestrator cache after the turn: untouched when the turn yields after T1, emptied by a committed apply in
+`on-apply` mode -/
 def orchNext : List ((Clem.Apply.Ver × Str) × Clem.T2.Out α) :=
-  if committed c t && c.bust && c.orchCacheOn then [] else (t2Stage w c s t o).orch
+  if !reach w c s t o 0 then s.orch
+  else if commits w c s t o && c.bust && c.orchCacheOn then [] else (t2Stage w c s t o).orch
+def utterOfTurn : Str := if t3On c t && reach w c s t o 2 then utterOf c (planFinal w c s t o).ops else []
+
+/-! ### reflection tail (t3.allow_reflection): C19's `Clem.Refl.tail` on the turn's utterance and retrieved texts -/
+
+def digitsAux : Nat → Nat → List Nat → List Nat
+  | 0, _, acc => acc
+  | fuel + 1, n, acc => if n < 10 then (48 + n) :: acc else digitsAux fuel (n / 10) ((48 + n % 10) :: acc)
+
+/-- `str(int)` -/
+def decStr (i : Int) : Str := if i < 0 then 45 :: digitsAux 24 i.natAbs [] else digitsAux 24 i.toNat []
+
+/-- what `_run_reflection_if_enabled(ctx, state, plan, utter, t2)` and the write / telemetry steps see -/
+def reflIn : Clem.Refl.TurnIn :=
+  { agent := w.agent, turn := decStr t.turnId, nowMs := some 0, isoPreset := none, dry := t.dryRun, t4on := c.t4Enabled,
+    planFlag := false, stateFlag := w.reflFlag, cfg := c.refl, utter := utterOfTurn w c s t o,
+    items := (t2Of w c s t o).retrieved.map (·.text), arts := [] }
+
+/-- no fault, rule-based backend, logical clock (elapsed 0) -/
+def reflOrc : Clem.Refl.Oracles := ⟨.real, .missing, 0, false, false, false, [], false⟩
+
+/-- the reflection tail sits after T4/Apply (or the kill-switch bypass): a yielded turn returns before it -/
+def reflOut : Clem.Refl.TurnOut :=
+  if (yieldOf w c s t o).isSome then Clem.Refl.notReached
+  else (Clem.Refl.tail true Clem.Refl.CtxSt.fresh (reflIn w c s t o) reflOrc).2
+
 def nextState : State α :=
-  { w := if committed c t then (storeBatch c s.w (t4Of w c s t o).approved).w else s.w
-    ver := if committed c t then .num (applyOf w c s t o).version else s.ver
-    t1c := t1cNext w c s t, orch := orchNext w c s t o }
-def utterOfTurn : Str := if t3On c t then utterOf c (planFinal w c s t o).ops else []
+  { w := if commits w c s t o then (storeBatch c s.w (t4Of w c s t o).approved).w else s.w
+    ver := if commits w c s t o then .num (applyOf w c s t o).version else s.ver
+    t1c := t1cNext w c s t, orch := orchNext w c s t o
+    orchH := if !reach w c s t o 0 then s.orchH
+             else if commits w c s t o && c.bust && c.orchCacheOn then [] else (t2Stage w c s t o).orchH
+    gel := gelNext w c s t o
+    memN := s.memN + (reflOut w c s t o).written.length }
 
 def runTurn : TurnOut α :=
   let r2 := t2Of w c s t o
+  let full := reach w c s t o 2
   { t1 := t1Of w c s t, touched := idsOfTurn w c s t, labels := labelsOf w c s t, qText := qOf w c s t
-    oracleMiss := (t2Stage w c s t o).oracleMiss || (ragOf w c s t o).miss, t2 := r2
-    orchHit := (t2Stage w c s t o).hit, orchSize := (t2Stage w c s t o).size
+    oracleMiss := reach w c s t o 0 && ((t2Stage w c s t o).oracleMiss || (full && (ragOf w c s t o).miss)), t2 := r2
+    orchHit := reach w c s t o 0 && (t2Stage w c s t o).hit, orchSize := (t2Stage w c s t o).size
     simMax := simMax r2, simMean := simMean r2, scoreMax := scoreMax r2, scoreMean := scoreMean r2
-    bundle := bundleOf w c s t o, t3Ran := t3On c t, planOps0 := (plan0Of w c s t o).ops
-    requestedRetrieve := t3On c t && (plan0Of w c s t o).ops.any Clem.T3.Op.isRetrieve
-    ragUsed := (ragOf w c s t o).ragUsed, ragIds := (ragOf w c s t o).retrievedIds
-    ops := (planFinal w c s t o).ops, deltas := (planFinal w c s t o).deltas, utter := utterOfTurn w c s t o
-    t2Calls := (if (t2Stage w c s t o).hit then 0 else 1) + (ragOf w c s t o).calls
-    t4in := if c.t4Enabled then some (t4InOf w c s t o) else none
-    t4 := if c.t4Enabled then some (t4Of w c s t o) else none
-    apply := if committed c t then some (applyOf w c s t o) else none
-    storeCalls := if committed c t then callsOf (t4Of w c s t o).approved (applyOf w c s t o).calls else []
-    line := if t.dryRun && c.t4Enabled then utterOfTurn w c s t o else finalLine (utterOfTurn w c s t o) t.text
+    bundle := bundleOf w c s t o, t3Ran := t3On c t && full, planOps0 := (plan0Of w c s t o).ops
+    requestedRetrieve := t3On c t && full && (plan0Of w c s t o).ops.any Clem.T3.Op.isRetrieve
+    ragUsed := full && (ragOf w c s t o).ragUsed, ragIds := (ragOf w c s t o).retrievedIds
+    ops := if full then (planFinal w c s t o).ops else []
+    deltas := (planFinal w c s t o).deltas, utter := utterOfTurn w c s t o
+    t2Calls := (if reach w c s t o 0 && !(t2Stage w c s t o).hit then 1 else 0) +
+               (if full then (ragOf w c s t o).calls else 0)
+    t4in := if c.t4Enabled && full then some (t4InOf w c s t o) else none
+    t4 := if c.t4Enabled && full then some (t4Of w c s t o) else none
+    apply := if commits w c s t o then some (applyOf w c s t o) else none
+    storeCalls := if commits w c s t o then callsOf (t4Of w c s t o).approved (applyOf w c s t o).calls else []
+    line := if (yieldOf w c s t o).isSome || (t.dryRun && c.t4Enabled) then utterOfTurn w c s t o
+            else finalLine (utterOfTurn w c s t o) t.text
+    gelObs := if gelObsOn w c s t o then some (gelObsOut w c s t o) else none
+    gelTick := if gelTickOn w c s t o then some (gelTickOut w c s t o) else none
+    gelMaint := if gelMaintOn w c s t o then
+        some ((gelMerges c o).length, (Clem.Gel.pySlice c.capMerge (gelMerges c o)).length,
+              (gelSplits c o).length, (Clem.Gel.pySlice c.capSplit (gelSplits c o)).length,
+              (Clem.Gel.pySlice c.capPromo (gelPromos c o)).length)
+      else none
+    hinfo := (t2Stage w c s t o).hinfo
+    refl := reflOut w c s t o
+    yielded := yieldOf w c s t o
+    t2Ran := reach w c s t o 0
     state := nextState w c s t o }
 
 end stages
@@ -571,13 +800,13 @@ structure Hist (α : Type) where
   outs : List (TurnOut α)
   state : State α
 
-def stepHist {α : Type} [Clem.T1.Num α] [Clem.T2.Num α] [Clem.T3.PyOrd α] [Clem.Py.Num α]
+def stepHist {α : Type} [Clem.T1.Num α] [Clem.T2.Num α] [Clem.T3.PyOrd α] [Clem.Py.Num α] [Clem.Py.NumGel α]
     (w : World α) (c : Cfg α) (h : Hist α) (t : TurnIn α × Oracles α) : Hist α :=
   let o := runTurn w c h.state t.1 t.2
   ⟨h.outs ++ [o], o.state⟩
 
 /-- the turn list folded over the state; the outputs of all turns in order and the final state -/
-def runTurns {α : Type} [Clem.T1.Num α] [Clem.T2.Num α] [Clem.T3.PyOrd α] [Clem.Py.Num α]
+def runTurns {α : Type} [Clem.T1.Num α] [Clem.T2.Num α] [Clem.T3.PyOrd α] [Clem.Py.Num α] [Clem.Py.NumGel α]
     (w : World α) (c : Cfg α) (s : State α) (ts : List (TurnIn α × Oracles α)) : Hist α :=
   ts.foldl (stepHist w c) ⟨[], s⟩
 
@@ -595,7 +824,7 @@ def monBundleNodes {α : Type} [Clem.T3.PyOrd α] (realDeltaIds : List Str) (rea
 /-- the deltas the real T1 returned are the T1 model's for THIS turn's text over the active graphs (the result
 cache never changes them) -/
 def monT1 {α : Type} [Clem.T1.Num α] (w : World α) (c : Cfg α) (text : Str) (realDeltaIds : List Str) : Bool :=
-  realDeltaIds == deltaIds w (Clem.T1.t1 c.t1 (t1Graphs w) text)
+  realDeltaIds == deltaIds w (Clem.T1.t1 (t1Cfg c) (t1Graphs w) text)
 
 /-- what reached the store is exactly the approved list, once (C04 on the real hand-off) -/
 def monHandoff (approvedKeys : List Str) (calls : List (List Str)) : Bool :=
